@@ -87,6 +87,10 @@ class C08(Check):
             # rows stored every m-th step: the step counter that selects the input sample must keep counting solver steps
             m_sub = rng.choice([1, 2, 5])
             steps = m_sub * rng.randint(2, 10)
+            if stratum == 'S-fortran' and rng.random() < 0.35:
+                # adaptive solver on the fortran backend: the generated interpolation helper is Fortran code of its own
+                solver, m_sub = 'scipy', 1
+                kw = {'method': rng.choice(['RK45', 'DOP853', 'RK23']), 'rtol': 1e-5, 'atol': 1e-7}
         elif rng.random() < 0.35 and stratum != 'S-torch':
             solver = 'heun'
         N = steps if (solver != 'scipy' or rng.random() < 0.5) else steps + rng.randint(1, 9)
@@ -290,7 +294,7 @@ class C08(Check):
         T_grid = T
         rec = Recorder()
         outputs = {f'o{i}': n for i, n in enumerate(names)}
-        if cfg.get('backend') in ('jax', 'fortran'):
+        if cfg.get('backend') in ('jax', 'fortran') and cfg['solver'] != 'scipy':
             # lax.scan traces the RHS once / the f2py routine is not a Python callable: no per-evaluation record.  The
             # returned iterates are compared with the reference iterates in which sample k drives BOTH stages of step k
             m_sub = cfg.get('m', 1)
